@@ -8,6 +8,7 @@ import (
 	"time"
 
 	"github.com/oasisprotocol/oasis-core/go/storage/mkvs"
+	dbapi "github.com/oasisprotocol/oasis-core/go/storage/mkvs/db/api"
 	"github.com/oasisprotocol/oasis-core/go/storage/mkvs/node"
 	"github.com/oasisprotocol/oasis-core/go/verifshim/sched"
 
@@ -47,6 +48,12 @@ func c06concPlans(thorough bool) []c06concPlan {
 		{Name: "prune(v1) prune(v2) | read v3", Prefix: three, Writers: [][]L{{p(1), p(2)}}, Read: [][]uint64{{3}}},
 		{Name: "commit(v3,del) commit(v3,mod) finalize(v3,#1) | read v2", Prefix: three[:4], Writers: [][]L{{c(3, "del"), c(3, "mod"), f(3, 1)}}, Read: [][]uint64{{2}}},
 		{Name: "commit(v3,del) commit(v3,mod) finalize(v3,#1) | read discarded candidate", Prefix: three[:4], Writers: [][]L{{c(3, "del"), c(3, "mod"), f(3, 1)}}, ReadCandidate: "del"},
+		// larger candidates (internal nodes on both sides), the finalized one committed second
+		{Name: "commit(v3,mod) commit(v3,del) finalize(v3,#1) | read discarded candidate (3-key trees)", Prefix: []L{c(1, "add2"), f(1, 0), c(2, "mod"), f(2, 0)}, Writers: [][]L{{c(3, "mod"), c(3, "del"), f(3, 1)}}, ReadCandidate: "mod"},
+		// two candidates of the same shape that differ only in their leaf values
+		{Name: "commit(v3,mod) commit(v3,modall) finalize(v3,#1) | read discarded candidate (same shape)", Prefix: []L{c(1, "add2"), f(1, 0), c(2, "mod"), f(2, 0)}, Writers: [][]L{{c(3, "mod"), c(3, "modall"), f(3, 1)}}, ReadCandidate: "mod"},
+		{Name: "commit(v3,modall2) commit(v3,modall) finalize(v3,#1) | read discarded candidate (same shape, every node rewritten)", Prefix: []L{c(1, "add2"), f(1, 0), c(2, "mod"), f(2, 0)}, Writers: [][]L{{c(3, "modall2"), c(3, "modall"), f(3, 1)}}, ReadCandidate: "modall2"},
+		{Name: "commit(v3,modall) commit(v3,mod) finalize(v3,#1) | read v2 | read discarded candidate (same shape)", Prefix: []L{c(1, "add2"), f(1, 0), c(2, "mod"), f(2, 0)}, Writers: [][]L{{c(3, "modall"), c(3, "mod"), f(3, 1)}}, Read: [][]uint64{{2}}, ReadCandidate: "modall"},
 		{Name: "commit(v3,readd) finalize(v3) | read v2", Prefix: three[:4], Writers: [][]L{{c(3, "readd"), f(3, 0)}}, Read: [][]uint64{{2}}},
 		{Name: "del/readd history: prune(v1) | read v3", Prefix: []L{c(1, "add2"), f(1, 0), c(2, "del"), f(2, 0), c(3, "add"), f(3, 0)}, Writers: [][]L{{p(1)}}, Read: [][]uint64{{3}}},
 		{Name: "commit(v4,add) finalize(v4) | prune(v1) | read v2", Prefix: three, Writers: [][]L{{c(4, "add"), f(4, 0)}, {p(1)}}, Read: [][]uint64{{2}}},
@@ -354,12 +361,21 @@ func c06concInstance(backend string, pl c06concPlan) (*conc.Instance, error) {
 					outcome.Add("candidate absent")
 					continue
 				}
-				got, err := readTree(e.ndb, croot)
+				// plain reads (iteration, then every key) as a local reader does them: no proof
+				// verification that would turn foreign contents into an error
+				got, err := readPlain(e.ndb, croot)
 				switch {
 				case err != nil:
 					outcome.Add("candidate unreadable")
 				case !got.Equal(cc):
-					problems.Add("candidate root %s of version %d, which the database reports present, reads back %s while it is being discarded; its own contents are %s", croot.Hash, v, got, cc)
+					// classify: a torn read that lost some of the candidate's own entries, or foreign contents
+					class := "torn-read-of-discarded-candidate"
+					for k, val := range got {
+						if own, ok := cc[k]; !ok || string(own) != string(val) {
+							class = "foreign-contents-under-discarded-candidate"
+						}
+					}
+					problems.Add("[[%s]] candidate root %s of version %d, which the database reports present, reads back %s while it is being discarded; its own contents are %s", class, croot.Hash, v, got, cc)
 					return
 				default:
 					outcome.Add("candidate read")
@@ -388,6 +404,17 @@ func runC06Conc(r *ev.Run) {
 			fmt.Println("cannot load replay:", err)
 			os.Exit(2)
 		}
+		if strings.Contains(v.Key, "held-reader") {
+			// the sequential held-reader histories are few: run them all again
+			r.NoWrite = true
+			c06HeldReaders(r)
+			if r.NumViolations() > 0 {
+				fmt.Printf("VIOLATION property=C06 replay=%s\n  what: held-reader histories fail again (see the check's output)\n", r.Replay)
+				os.Exit(1)
+			}
+			fmt.Println("replay: property held")
+			os.Exit(0)
+		}
 		what, err := conc.Replay(c06concScenarios(r), v.Artefact)
 		if err != nil {
 			fmt.Println("replay:", err)
@@ -410,6 +437,7 @@ func runC06Conc(r *ev.Run) {
 		r.Finish()
 	}
 	r.Fork(ev.Workers())
+	c06HeldReaders(r)
 	scs := c06concScenarios(r)
 	conc.Explore(r, "dbmc-conc", scs)
 	if r.Thorough() {
@@ -425,4 +453,138 @@ func runC06Conc(r *ev.Run) {
 	r.Assume("concurrency phase: threads are preempted only at lock acquisitions of the node database and at badger reads / durable writes; a single writer's own reads are not scheduling points (they commute with the readers' reads); badger's internal goroutines run freely (they do not change logical contents)")
 	r.Finish()
 	_ = json.Marshal
+}
+
+// readPlain reads a root through one tree object: full iteration, then a get per key.
+func readPlain(ndb dbapi.NodeDB, root node.Root) (c kv.Contents, err error) {
+	defer func() {
+		if p := recover(); p != nil {
+			err = fmt.Errorf("panic: %v", p)
+		}
+	}()
+	t := mkvs.NewWithRoot(nil, ndb, root, mkvs.Capacity(3, 0))
+	defer t.Close()
+	c, _, err = kv.TreeContents(t)
+	if err != nil {
+		return nil, err
+	}
+	for _, k := range dbKeys {
+		v, gerr := t.Get(kv.Ctx, k)
+		if gerr != nil {
+			return nil, gerr
+		}
+		if v != nil {
+			c[string(k)] = v
+		} else {
+			delete(c, string(k))
+		}
+	}
+	return c, nil
+}
+
+// c06HeldReaders: sequential histories with a long-lived tree handle.  A reader opens a tree at a
+// candidate root and reads one key; then the other candidate is finalized (or an old version is
+// pruned); then the reader continues with the same handle.  Every later answer must be an error
+// or the handle's own value - never another root's.
+func c06HeldReaders(r *ev.Run) {
+	c := func(v uint64, b string) L { return L{Op: "commit", V: v, Batch: b} }
+	f := func(v uint64, ch int) L { return L{Op: "finalize", V: v, Choice: ch} }
+	type plan struct {
+		name   string
+		prefix []L
+		a, b   string // candidate batches of the next version; the handle is on a, b is finalized
+	}
+	plans := []plan{
+		{"held handle on the discarded candidate (same shape)", []L{c(1, "add2"), f(1, 0), c(2, "mod"), f(2, 0)}, "modall2", "modall"},
+		{"held handle on the discarded candidate (different shape)", []L{c(1, "add2"), f(1, 0), c(2, "mod"), f(2, 0)}, "mod", "del"},
+		{"held handle on the discarded candidate (b committed first)", []L{c(1, "add2"), f(1, 0)}, "modall", "modall2"},
+	}
+	items := 0
+	for _, be := range kv.Backends {
+		for pi, pl := range plans {
+			for first := 0; first < len(dbKeys); first++ {
+				items++
+				if (items-1)%16 != shardIndex() {
+					continue
+				}
+				what := func() (what string) {
+					defer func() {
+						if p := recover(); p != nil {
+							what = fmt.Sprintf("panic: %v", p)
+						}
+					}()
+					e, err := openEnv(be, "")
+					if err != nil {
+						return "harness: " + err.Error()
+					}
+					defer e.ndb.Close()
+					for _, l := range pl.prefix {
+						if w := e.apply(l); w != "" {
+							return "harness: prefix: " + w
+						}
+					}
+					v := e.ref.last + 1
+					parent, base := e.ref.stateParent(v)
+					order := []string{pl.a, pl.b}
+					if pi == 2 {
+						order = []string{pl.b, pl.a}
+					}
+					roots := map[string]node.Root{}
+					conts := map[string]kv.Contents{}
+					for _, bn := range order {
+						rt, cc, err := commitCandidate(e, parent, base, v, bn)
+						if err != nil {
+							return "harness: commit: " + err.Error()
+						}
+						roots[bn], conts[bn] = rt, cc
+					}
+					t := mkvs.NewWithRoot(nil, e.ndb, roots[pl.a], mkvs.Capacity(0, 0))
+					defer t.Close()
+					own := conts[pl.a]
+					check := func(k []byte, when string) string {
+						val, err := t.Get(kv.Ctx, k)
+						if err != nil {
+							return ""
+						}
+						want, ok := own[string(k)]
+						if (val == nil) != !ok || (ok && string(val) != string(want)) {
+							return fmt.Sprintf("%s: Get(%x) through a handle on candidate %s returned %q, the candidate holds %q (present=%v)", when, k, pl.a, val, want, ok)
+						}
+						return ""
+					}
+					if w := check(dbKeys[first], "before the other candidate is finalized"); w != "" {
+						return w
+					}
+					if err := e.ndb.Finalize([]node.Root{roots[pl.b]}); err != nil {
+						return "harness: finalize: " + err.Error()
+					}
+					for _, k := range dbKeys {
+						if w := check(k, "after the other candidate was finalized"); w != "" {
+							return w
+						}
+					}
+					return ""
+				}()
+				r.Add("transitions", 1)
+				r.Add("held_reader_histories", 1)
+				if what == "" {
+					continue
+				}
+				if strings.HasPrefix(what, "harness:") {
+					r.HarnessError("%s [%s %s]", what, be, pl.name)
+					continue
+				}
+				r.Violate(ev.Violation{Engine: "dbmc-conc", Key: fmt.Sprintf("c06 held-reader %s %s first=%x", be, pl.name, dbKeys[first]), What: fmt.Sprintf("%s, %s, first key %x: %s", be, pl.name, dbKeys[first], what), Artefact: conc.Artefact{Scenario: "held-reader"}})
+			}
+		}
+	}
+}
+
+// shardIndex is this process's shard (0 when not forked).
+func shardIndex() int {
+	var k, n int
+	if _, err := fmt.Sscanf(os.Getenv("VERIF_SHARD"), "%d/%d", &k, &n); err == nil && n > 0 {
+		return k % 16
+	}
+	return 0
 }
